@@ -124,9 +124,18 @@ def schema_contracts(cs, tier):
         loop = Loop(assigns=["__begin0.%s" % idx, "*%s" % lv, lptr], invariants=inv, decreases="(unsigned long)__end0.%s - (unsigned long)__begin0.%s" % (idx, idx))
         c_grp = Contract(f, "%s:%s::size_bytes_checked on_group%s" % (cs.name, "_".join(L.path), tag), props={"C06"}, ghosts=GH, mode="S", pre=pre, post=post,
                          assigns=["*%s" % sp, cptr], replaces=[c_ent], loops={(lf.mangled, 0): loop}, note="entry loop by loop contract (any numInGroup); entries through the on_entry contract")
+        # the property's "work bounded by a function of n alone": the entry loop runs numInGroup times, also when every entry has wire
+        # blockLength 0 -- exhibited as known finding sbc-work-not-bounded-by-n (reproduced natively: tools/findings/sbc_work.cpp)
+        inv_w = inv + ["sbv_steps == __CPROVER_loop_entry(sbv_steps) + ((unsigned long)__begin0.%s - (unsigned long)__CPROVER_loop_entry(__begin0.%s))" % (idx, idx)]
+        loop_w = Loop(assigns=["__begin0.%s" % idx, "*%s" % lv, lptr], invariants=inv_w, decreases="(unsigned long)__end0.%s - (unsigned long)__begin0.%s" % (idx, idx))
+        c_grp_w = Contract(f, "%s:%s::size_bytes_checked on_group [work bounded by n]" % (cs.name, "_".join(L.path)), props={"C06"}, ghosts=GH, mode="S", pre=pre,
+                           post=[("entry-iterations-bounded-by-n", "sbv_steps - OLD(sbv_steps) <= sbv_n")], assigns=["*%s" % sp, cptr], replaces=[c_ent], loops={(lf.mangled, 0): loop_w},
+                           note="counts the iterations of this group's entry loop only")
         done[key] = (c_grp, c_ent)
         out.append(c_ent)
         out.append(c_grp)
+        if not L.groups and not L.data and len(L.path) == 2:
+            out.append(c_grp_w)  # one representative per message is enough to exhibit the finding: flat top-level groups
         return done[key]
 
     by_ident = {li.ident: li for li in g.levels}
